@@ -2042,7 +2042,9 @@ func (v *VM) ContractHasTryBlock() bool {
 		}
 		for j := range ictx.tryStack.Len() {
 			eCtx := ictx.tryStack.Peek(j).Value().(*exceptionHandlingContext)
-			if eCtx.State == eTry {
+			// A CATCH block with a FINALLY one matters as well: if the call made
+			// from it throws, the FINALLY block still runs in this contract.
+			if eCtx.State == eTry || (eCtx.State == eCatch && eCtx.HasFinally()) {
 				return true
 			}
 		}
